@@ -385,7 +385,9 @@ func runWrap(sc *Scenario, res *Result, keepLog bool) {
 		r.fail("C20.initial", "Config over the wrapped source failed: %v", errW)
 	}
 	if errW == nil && r.W != nil {
+		s.Settle() // the wrapped twin's goroutines register (entry#1) before the unwrapped twin's (entry#2)
 		r.U, errU = dials.Config(r.ctx, defaults(), usources...)
+		s.Settle()
 		if errU != nil {
 			res.Infra = "unwrapped twin failed: " + errU.Error()
 			return
